@@ -28,7 +28,9 @@ Notation M_irun := (M_irun L leq as_pos).
 Notation M_lookup := (M_lookup L leq as_pos).
 Notation M_iobserve := (M_iobserve L leq as_pos).
 Notation S_iobserve := (S_iobserve L).
-Notation dom_extend := (dom_extend L leq as_pos).
+Notation ext_safe := (ext_safe L leq as_pos).
+Notation M_extend_check := (M_extend_check L leq as_pos).
+Notation M_extend_loop := (M_extend_loop L leq as_pos).
 Notation dom_iop := (dom_iop L leq as_pos).
 Notation dom_irun := (dom_irun L leq as_pos).
 Notation M_len := (M_len L).
@@ -304,42 +306,69 @@ Proof.
   unfold GrowOnly.S_append. now destruct (mem v (g_lm s)).
 Qed.
 
-(* extend when no failure is allowed: every label is new and all are appended *)
-Lemma M_extend_all : forall vs s, igo_wf s -> dom_extend s vs false = true ->
-  fresh_all (g_lm s) vs = true /\
-  igo_wf (fst (M_extend s vs)) /\ g_lm (fst (M_extend s vs)) = g_lm s ++ vs /\
-  is_ok (snd (M_extend s vs)) = true.
+(* the append loop of extend on labels that are all new: all are appended *)
+Lemma M_extend_loop_all : forall vs s, igo_wf s -> fresh_all (g_lm s) vs = true ->
+  igo_wf (fst (M_extend_loop s vs)) /\ g_lm (fst (M_extend_loop s vs)) = g_lm s ++ vs /\
+  is_ok (snd (M_extend_loop s vs)) = true.
 Proof.
-  induction vs as [|v r IH]; intros s Hwf Hd; cbn in *.
+  induction vs as [|v r IH]; intros s Hwf Hf; cbn in *.
   - rewrite app_nil_r. auto.
-  - pose proof (M_append_refines s v Hwf) as (Hw1 & Hl1 & Ho1).
-    pose proof (M_append_ok_iff s v Hwf) as Hok.
+  - apply andb_true_iff in Hf as [Hv Hf]. apply negb_true_iff in Hv.
+    pose proof (M_append_refines s v Hwf) as (Hw1 & Hl1 & Ho1).
+    pose proof (M_append_ok_iff s v Hwf) as Hok. rewrite Hv in Hok. cbn in Hok.
+    unfold GrowOnly.S_append in Hl1. rewrite Hv in Hl1. cbn in Hl1.
     destruct (GrowOnly.M_append L leq as_pos s v) as [s1 o] eqn:E. cbn in *.
     destruct o as [u|e]; [|discriminate].
-    cbn in Hok. symmetry in Hok. rewrite Hok. cbn.
-    unfold GrowOnly.S_append in Hl1. apply negb_true_iff in Hok. rewrite Hok in Hl1. cbn in Hl1.
-    destruct (IH s1 Hw1 Hd) as (Hf & Hw2 & Hl2 & Ho2). rewrite Hl1 in *.
-    refine (conj Hf (conj Hw2 (conj _ Ho2))). rewrite Hl2, <- app_assoc. reflexivity.
+    rewrite <- Hl1 in Hf. destruct (IH s1 Hw1 Hf) as (Hw2 & Hl2 & Ho2).
+    refine (conj Hw2 (conj _ Ho2)). rewrite Hl2, Hl1, <- app_assoc. reflexivity.
 Qed.
 
-Lemma M_extend_refines : forall vs s, igo_wf s -> dom_extend s vs true = true ->
+(* the validation pass of extend: inside the guard it decides exactly "every label is new", and it
+   changes nothing but the array cache *)
+Lemma ext_safe_contains : forall s v, igo_wf s ->
+  (match g_map s with Some _ => true | None => is_some (as_pos v) || negb (mem v (g_lm s)) end) = true ->
+  M_contains s v = mem v (g_lm s).
+Proof.
+  intros s v Hwf H. destruct (g_map s) as [keys|] eqn:Em.
+  - apply contains_correct; auto. left. congruence.
+  - destruct (as_pos v) as [z|] eqn:Ev.
+    + apply contains_correct; auto. right. congruence.
+    + cbn in H. apply negb_true_iff in H. rewrite H. now apply contains_auto_nonint.
+Qed.
+
+Lemma M_extend_check_spec : forall vs s obs, igo_wf s -> ext_safe s vs = true ->
+  let r := M_extend_check s vs obs in
+  igo_wf (fst r) /\ g_lm (fst r) = g_lm s /\ g_map (fst r) = g_map s /\
+  snd r = fresh_all (g_lm s ++ obs) vs.
+Proof.
+  induction vs as [|v r IH]; intros s obs Hwf Hs; cbn.
+  - auto.
+  - pose proof (contains_state_wf s v Hwf) as Hw1.
+    pose proof (contains_state_lm s v) as Hl1. pose proof (contains_state_map s v) as Hm1.
+    assert (Hc : M_contains s v = mem v (g_lm s)).
+    { apply ext_safe_contains; auto. unfold GrowOnly.ext_safe in Hs. destruct (g_map s); auto.
+      cbn in Hs. now apply andb_true_iff in Hs as [Hs _]. }
+    assert (Hs1 : ext_safe (M_contains_state s v) r = true).
+    { unfold GrowOnly.ext_safe in *. rewrite Hm1, Hl1. destruct (g_map s); auto.
+      cbn in Hs. now apply andb_true_iff in Hs as [_ Hs]. }
+    rewrite Hc, mem_app.
+    destruct (mem v (g_lm s) || mem v obs) eqn:E; cbn.
+    + auto.
+    + destruct (IH (M_contains_state s v) (obs ++ [v]) Hw1 Hs1) as (Hw & Hl & Hm & Hb).
+      rewrite Hl1 in *. rewrite app_assoc in Hb. refine (conj Hw (conj Hl (conj _ Hb))). congruence.
+Qed.
+
+Lemma M_extend_refines : forall vs s, igo_wf s -> ext_safe s vs = true ->
   step_refines (M_extend s vs) (S_extend (g_lm s) vs).
 Proof.
-  intros [|v r] s Hwf Hd; unfold GrowOnly.S_extend.
-  - cbn. unfold step_refines; cbn. rewrite app_nil_r. auto.
-  - cbn in Hd.
-    pose proof (M_append_refines s v Hwf) as (Hw1 & Hl1 & Ho1).
-    pose proof (M_append_ok_iff s v Hwf) as Hok.
-    cbn [GrowOnly.M_extend GrowOnly.fresh_all].
-    destruct (GrowOnly.M_append L leq as_pos s v) as [s1 o] eqn:E. cbn in *.
-    unfold GrowOnly.S_append in Hl1.
-    destruct o as [u|e]; cbn in Hok; symmetry in Hok.
-    + apply negb_true_iff in Hok. rewrite Hok in *. cbn in *.
-      destruct (M_extend_all r s1 Hw1 Hd) as (Hf & Hw2 & Hl2 & Ho2).
-      rewrite Hl1 in *. rewrite Hf. unfold step_refines; cbn.
-      refine (conj Hw2 (conj _ Ho2)). rewrite Hl2, <- app_assoc. reflexivity.
-    + apply negb_false_iff in Hok. rewrite Hok in *. cbn in *.
-      unfold step_refines; cbn. auto.
+  intros vs s Hwf Hs. unfold GrowOnly.M_extend, GrowOnly.S_extend.
+  pose proof (M_extend_check_spec vs s [] Hwf Hs) as (Hw & Hl & Hm & Hb). cbn zeta in *.
+  rewrite app_nil_r in Hb.
+  destruct (GrowOnly.M_extend_check L leq as_pos s vs []) as [s1 ok]. cbn in *. subst ok.
+  destruct (fresh_all (g_lm s) vs) eqn:Hf.
+  - rewrite <- Hl in Hf. destruct (M_extend_loop_all vs s1 Hw Hf) as (Hw2 & Hl2 & Ho2).
+    unfold step_refines; cbn. rewrite Hl in Hl2. auto.
+  - unfold step_refines; cbn. auto.
 Qed.
 
 Lemma M_istep_refines : forall s op, igo_wf s -> dom_iop s op = true ->
@@ -457,7 +486,14 @@ Proof.
   exists []. cbn. now rewrite app_nil_r, Hl.
 Qed.
 
-Lemma M_extend_prefix : forall vs s, exists t, g_lm (fst (M_extend s vs)) = g_lm s ++ t.
+Lemma M_extend_check_lm : forall vs s obs, g_lm (fst (M_extend_check s vs obs)) = g_lm s.
+Proof.
+  induction vs as [|v r IH]; intros s obs; cbn; auto.
+  destruct (M_contains s v || mem v obs); cbn; [apply contains_state_lm|].
+  rewrite IH. apply contains_state_lm.
+Qed.
+
+Lemma M_extend_loop_prefix : forall vs s, exists t, g_lm (fst (M_extend_loop s vs)) = g_lm s ++ t.
 Proof.
   induction vs as [|v r IH]; intros s; cbn.
   - exists []. now rewrite app_nil_r.
@@ -465,6 +501,14 @@ Proof.
     destruct (GrowOnly.M_append L leq as_pos s v) as [s1 o]. cbn in H1. destruct o.
     + destruct (IH s1) as [t2 H2]. exists (t1 ++ t2). now rewrite H2, H1, app_assoc.
     + exists t1. exact H1.
+Qed.
+
+Lemma M_extend_prefix : forall vs s, exists t, g_lm (fst (M_extend s vs)) = g_lm s ++ t.
+Proof.
+  intros vs s. unfold GrowOnly.M_extend. pose proof (M_extend_check_lm vs s []) as Hl.
+  destruct (GrowOnly.M_extend_check L leq as_pos s vs []) as [s1 ok]. cbn in Hl. destruct ok.
+  - destruct (M_extend_loop_prefix vs s1) as [t H]. exists t. now rewrite H, Hl.
+  - exists []. cbn. now rewrite app_nil_r.
 Qed.
 
 Theorem M_irun_prefix : forall ops s, exists t, g_lm (fst (M_irun s ops)) = g_lm s ++ t.
@@ -493,6 +537,65 @@ Proof.
   destruct (g_map (M_contains_state s v)) eqn:Eg; cbn; [discriminate|].
   destruct (match as_pos v with Some z => z =? g_cnt (M_contains_state s v) | None => false end); cbn; [discriminate|].
   destruct (nodupb (g_lm (M_contains_state s v) ++ [v])); cbn; [discriminate|]. intros _; repeat split; congruence.
+Qed.
+
+(* ---- indices with a map (every index built from explicit labels): NO guard at all *)
+Lemma M_append_keeps_map : forall s v, g_map s <> None -> g_map (fst (M_append s v)) <> None.
+Proof.
+  intros s v H. unfold GrowOnly.M_append. pose proof (contains_state_map s v) as Hm.
+  destruct (M_contains s v); cbn; [congruence|].
+  destruct (g_map (M_contains_state s v)) eqn:E; cbn; [discriminate | congruence].
+Qed.
+
+Lemma M_extend_loop_keeps_map : forall vs s, g_map s <> None -> g_map (fst (M_extend_loop s vs)) <> None.
+Proof.
+  induction vs as [|v r IH]; intros s H; cbn; auto.
+  pose proof (M_append_keeps_map s v H) as H1.
+  destruct (GrowOnly.M_append L leq as_pos s v) as [s1 o]. cbn in H1. destruct o; auto.
+Qed.
+
+Lemma M_extend_check_map : forall vs s obs, g_map (fst (M_extend_check s vs obs)) = g_map s.
+Proof.
+  induction vs as [|v r IH]; intros s obs; cbn; auto.
+  destruct (M_contains s v || mem v obs); cbn; [apply contains_state_map|].
+  rewrite IH. apply contains_state_map.
+Qed.
+
+Lemma M_istep_keeps_map : forall s op, g_map s <> None -> g_map (fst (M_istep s op)) <> None.
+Proof.
+  intros s [v|vs|] H; cbn.
+  - now apply M_append_keeps_map.
+  - unfold GrowOnly.M_extend. pose proof (M_extend_check_map vs s []) as Hm.
+    destruct (GrowOnly.M_extend_check L leq as_pos s vs []) as [s1 ok]. cbn in Hm. destruct ok; cbn.
+    + apply M_extend_loop_keeps_map. congruence.
+    + congruence.
+  - now rewrite refresh_map.
+Qed.
+
+Lemma dom_irun_with_map : forall ops s, g_map s <> None -> dom_irun s ops = true.
+Proof.
+  induction ops as [|op r IH]; intros s H; cbn; auto.
+  apply andb_true_iff. split.
+  - destruct op; cbn; auto. unfold GrowOnly.ext_safe. destruct (g_map s); congruence.
+  - apply IH. now apply M_istep_keeps_map.
+Qed.
+
+(* REFINEMENT WITHOUT ANY GUARD for an index that has a map: every history of append / extend / reads,
+   valid or not, meets the specification -- in particular every rejected call is all-or-nothing *)
+Theorem igo_refines_with_map : forall ops s, igo_wf s -> g_map s <> None ->
+  igo_wf (fst (M_irun s ops)) /\
+  g_lm (fst (M_irun s ops)) = fst (S_irun (g_lm s) ops) /\
+  map is_ok (snd (M_irun s ops)) = map is_ok (snd (S_irun (g_lm s) ops)).
+Proof. intros ops s Hwf Hm. apply igo_refines; auto. now apply dom_irun_with_map. Qed.
+
+(* extend is all-or-nothing, unconditionally on an index with a map *)
+Theorem M_extend_atomic_with_map : forall s vs, igo_wf s -> g_map s <> None ->
+  is_ok (snd (M_extend s vs)) = false -> g_lm (fst (M_extend s vs)) = g_lm s.
+Proof.
+  intros s vs Hwf Hm Hf.
+  assert (Hs : ext_safe s vs = true) by (unfold GrowOnly.ext_safe; destruct (g_map s); congruence).
+  destruct (M_extend_refines vs s Hwf Hs) as (_ & Hl & Ho). rewrite Hl. rewrite Hf in Ho.
+  unfold GrowOnly.S_extend in *. destruct (fresh_all (g_lm s) vs); [discriminate | reflexivity].
 Qed.
 
 End IndexProofs.
